@@ -10,7 +10,8 @@ SPEC = dict(
          'time). The bytes handed to the transport are re-parsed by the reference request parser: header present and first, login id as configured, MAC present and '
          'last, MAC algorithm = configured, MAC = reference HMAC over the authenticated range (v2: every byte before the digest; v1: header TLV + payload TLV), '
          'request content unchanged. One case = one (service, version, algorithm, key, login, client) with all contents; the same again with a request header callback '
-         '(KSI_CTX_setRequestHeaderCallback) that adds an instance id and a message id: on the blocking clients the wire header must carry them and the MAC must cover them. '
+         '(KSI_CTX_setRequestHeaderCallback) that adds an instance id and a message id: on the blocking clients the wire header must carry them and the MAC must cover them; and once more after the endpoint had first been configured '
+         'with other credentials and used (the request must carry the new login id and a MAC under the new key; a plain asynchronous service refuses to be re-pointed). '
          'Part B (responses): the reference server answers the request really emitted with an authentic response (aggregation, extension, aggregator and '
          'extender configuration, and a v2 aggregation / extension response carrying an unrequested (pushed) configuration that reaches the caller through the '
          'KSI_OPT_*_CONF_RECEIVED_CALLBACK context option or KSI_ASYNC_OPT_PUSH_CONF_CALLBACK; PDU v2 and v1) and the driver applies one deviation: every single-bit flip, every truncation length, every splice point with a '
